@@ -1,0 +1,14 @@
+//go:build verif
+
+package runtime
+
+// VerifPaused reports whether a Pause or Step call is currently waiting for a breakpoint
+// (it holds the debugger's read lock for as long as it waits). Read-only probe for the
+// verification harness; compiled only with the verif build tag.
+func (d *Debugger) VerifPaused() bool {
+	if d.rmu.TryLock() {
+		d.rmu.Unlock()
+		return false
+	}
+	return true
+}
